@@ -436,6 +436,80 @@ def breadth(ctx, lincheck, per_variant):
     return stats, sum(len(c) for c in allcases.values()), bad, len(corpus)
 
 
+
+# ------------------------------------------------------------------------------------------------------------
+# step correspondence (DESIGN 3.2): extracted step-grain models against the real code, event by event
+
+STEP_MODELS = [
+    # (tag, extraction file, harness source, generator, what is modelled)
+    ("feldman", "Extract_Feldman.v", "step_feldman.cpp", "gen_step_feldman",
+     "LV.Model.Feldman vs cds::intrusive::FeldmanHashSet<HP> (traverse, expand_slot, insert, do_update, do_erase, find; cds/intrusive/impl/feldman_hashset.h, details/feldman_hashset_base.h)"),
+    ("splitlist", "Extract_SplitList.v", "step_splitlist.cpp", "gen_step_splitlist",
+     "LV.Model.SplitList vs cds::intrusive::SplitListSet<HP, MichaelList> (get_bucket, init_bucket, inc_item_count, list operations; cds/intrusive/split_list.h, details/split_list_base.h)"),
+]
+
+
+def step_stage(ctx, n):
+    """-> (statistics, list of (tag, case, first divergence))"""
+    stats = {}
+    divs = []
+    for tag, extract_v, hsrc, gen, what in STEP_MODELS:
+        if not os.path.exists(os.path.join(vcheck.COQ, "Extract", extract_v)) or not os.path.exists(os.path.join(HDIR, hsrc)):
+            continue
+        model = conc_check.build_model(ctx, extract_v, tag="model_" + tag)
+        impl = None
+        for attempt in range(3):
+            try:
+                impl = vcheck.cxx_build(os.path.join(HDIR, hsrc), os.path.join(ctx.work, "step", hsrc[:-4]), hook=True,
+                                        extra=("-I" + HDIR, "-DC14_HDR=" + hdr_hash()) + EXTRA_LINK)
+                break
+            except vcheck.BuildError as e:
+                if "libcds.a" not in str(e) or attempt == 2:
+                    raise
+        rng = vcheck.SplitMix64(ctx.seed * 31 + len(tag))
+        cases = globals()[gen](rng, n)
+        # split into chunks: all cores
+        chunks = [cases[j::8] for j in range(8)]
+        def one(j):
+            if not chunks[j]:
+                return None
+            return conc_check.run_both(ctx, model, impl, chunks[j], tag="step_%s_%d" % (tag, j), fuel=60000)
+        with ThreadPoolExecutor(max_workers=8) as ex:
+            outs = list(ex.map(one, range(8)))
+        st = {"cases": len(cases), "agree": 0, "diverged": 0, "model_out_of_fuel": 0, "impl_steps_compared": 0, "contended": 0,
+              "monitor_bad": 0, "modelled": what}
+        for j, o in enumerate(outs):
+            if o is None:
+                continue
+            rc1, ml, rc2, il, raw = o
+            for c in chunks[j]:
+                m = ml.get(c["id"]); i = il.get(c["id"])
+                if m is None or i is None:
+                    st["diverged"] += 1
+                    divs.append((tag, c, {"index": -1, "model": "<no output>" if m is None else "ok", "impl": "<no output>" if i is None else "ok", "prefix": []}))
+                    continue
+                st["impl_steps_compared"] += len(i["lines"])
+                for x in i["extra"]:
+                    if x.startswith("monitor keys"):
+                        ks = x.split()[2:]
+                        if len(set(ks)) != len(ks):
+                            st["monitor_bad"] += 1
+                            ctx.violation("key present twice in the real container (step harness %s, iteration after the run)" % tag, {"case": c, "keys": ks, "impl_log": i["lines"]})
+                d = conc_check.compare(m, i)
+                if d is not None and "outoffuel" in d["model"]:
+                    st["model_out_of_fuel"] += 1      # the model's loop fuel ran out while spinning: prefix agreement only
+                    continue
+                if d is not None:
+                    st["diverged"] += 1
+                    divs.append((tag, c, d))
+                else:
+                    st["agree"] += 1
+                    if any(l.split(" ")[1] == "cas" and l.endswith(" 0") for l in m["lines"]):
+                        st["contended"] += 1          # at least one failed CAS: threads really interfered
+        stats[tag] = st
+    return stats, divs
+
+
 def replay(ctx, lincheck):
     rp = json.load(open(ctx.replay))
     shard = rp.get("shard")
@@ -470,6 +544,14 @@ def run(ctx):
     t0 = time.time()
     stats, ncases, bad, ncorpus = breadth(ctx, lincheck, per_variant)
     ctx.log("breadth: %d cases over %d variants, %d bad, %.1fs" % (ncases, len(stats), bad, time.time() - t0))
+    t1 = time.time()
+    sstats, divs = step_stage(ctx, 6000 if ctx.thorough() else 1500)
+    ctx.log("step correspondence: %s, %.1fs" % ({k: (v["agree"], v["diverged"]) for k, v in sstats.items()}, time.time() - t1))
+    if divs and bad == 0 and not any(v["monitor_bad"] for v in sstats.values()):
+        # the correspondence broke and neither lincheck on the breadth run nor the monitors found a failing input
+        tag, c, d = divs[0]
+        ctx.violation("step correspondence between the %s model and the real code no longer holds" % tag,
+                      {"correspondence": [m[4] for m in STEP_MODELS if m[0] == tag][0], "case": c, "first_divergence": d, "diverged_cases": len(divs)}, no_input=True)
     if res is not None and not res.ok:
         ctx.violation("Coq obligations of C14 do not check: %s" % (res.failed[:2],), {"theorem": [f[2] for f in res.failed], "errors": res.failed[:3]}, no_input=True)
     fam = {}
@@ -487,7 +569,8 @@ def run(ctx):
         "rule": "one evaluation = one (variant, configuration, 2-3 thread program over keys 0..5, schedule) run on the real container under the deterministic scheduler, its history decided by the verified lincheck (twice: history alone, history + quiescent contents); non-trivial = linearizable history in which two operations on the same key overlap in time and at least one of them is an update",
         "variants": len(stats), "per_variant": fam, "operation_histogram": ops, "corpus_cases": ncorpus,
         "histories_decided_by_verified_lincheck": sum(st["finished"] for st in stats.values()),
-        "traces_validated_against_impl": sum(st["lin_ok"] for st in stats.values()),
+        "traces_validated_against_impl": sum(st["lin_ok"] for st in stats.values()) + sum(v["agree"] for v in sstats.values()),
+        "step_correspondence": sstats,
     })
     if "obligations" not in ctx.coverage:
         ctx.coverage.update({"obligations": 0, "discharged": 0, "checker_cmd": "n/a (stage A only)"})
